@@ -115,6 +115,11 @@ static PALETTE: &[P] = &[
     p("ch-lam", "#\\λ", K::Char, true),
     p("ch-ss", "#\\ß", K::Char, false),
     p("ch-max", "#\\x10FFFF", K::Char, false),
+    // Unicode-numeric characters outside ASCII (decimal digit, fraction, letter-number, fullwidth digit)
+    p("ch-arab3", "#\\x663", K::Char, false),
+    p("ch-half", "#\\xBD", K::Char, false),
+    p("ch-roman4", "#\\x2163", K::Char, false),
+    p("ch-fw5", "#\\xFF15", K::Char, false),
     p("s-empty", "(string)", K::Str, true),
     p("s-a", "(string #\\a)", K::Str, false),
     p("s-abc", "(string-copy \"abc\")", K::Str, false),
@@ -282,10 +287,10 @@ fn ok_class(c: &Cell) -> String {
 }
 
 /// one datum of `text` through parse_text / prepare_eval / run_count(budget)
-fn eval_sliced(vm: &mut Vm, text: &str, budget: usize) -> String {
+/// One datum of `text` through the sliced entry point.
+fn eval_sliced_one(vm: &mut Vm, cell: &Cell, budget: usize) -> String {
     let r = catch(|| -> Result<Option<Cell>, Error> {
-        let (cell, _) = marwood::parse::parse_text(text)?;
-        vm.prepare_eval(&cell)?;
+        vm.prepare_eval(cell)?;
         vm.run_count(budget)
     });
     match r {
@@ -296,12 +301,43 @@ fn eval_sliced(vm: &mut Vm, text: &str, budget: usize) -> String {
     }
 }
 
+/// The read–eval loop of the front ends over a whole text: datum by datum in ONE VM, continuing after an
+/// error (that is what "the same VM accepts further input afterwards" means for a REPL); the class reported
+/// is that of the last datum, a panic or budget hang anywhere ends the loop and is reported.
+fn eval_loop(vm: &mut Vm, text: &str, mut one: impl FnMut(&mut Vm, &Cell) -> String) -> String {
+    let mut rest = text;
+    let mut last = String::new();
+    for _ in 0..64 {
+        let parsed = catch(|| marwood::parse::parse_text(rest).map(|(c, r)| (c, r.map(|s| s.len()))));
+        let (cell, remaining) = match parsed {
+            Err(site) => return format!("panic {}", site),
+            Ok(Err(e)) => {
+                return if last.is_empty() { err_class(&Error::from(e)) } else { last };
+            }
+            Ok(Ok(x)) => x,
+        };
+        last = one(vm, &cell);
+        if last.starts_with("panic") || last.starts_with("hang") {
+            return last;
+        }
+        match remaining {
+            Some(n) if n > 0 => rest = &rest[rest.len() - n..],
+            _ => break,
+        }
+    }
+    last
+}
+
+fn eval_sliced(vm: &mut Vm, text: &str, budget: usize) -> String {
+    eval_loop(vm, text, |vm, cell| eval_sliced_one(vm, cell, budget))
+}
+
 fn eval_unsliced(vm: &mut Vm, text: &str) -> String {
-    match catch(|| vm.eval_text(text).map(|(c, _)| c)) {
+    eval_loop(vm, text, |vm, cell| match catch(|| vm.eval(cell)) {
         Err(site) => format!("panic {}", site),
         Ok(Ok(c)) => ok_class(&c),
         Ok(Err(e)) => err_class(&e),
-    }
+    })
 }
 
 /// "the same VM accepts further input afterwards"
